@@ -17,6 +17,10 @@ class Panic(Exception):
     """A Rust panic on the current path."""
 
 
+class Hang(Exception):
+    """the interpreter's step cap was exceeded on one path"""
+
+
 class Infeasible(Exception):
     """The current path condition became unsatisfiable (assume(false))."""
 
